@@ -396,10 +396,12 @@ func classify(m mstate, in opIn, out opOut) string {
 
 func tokenBucket(c *ev.Check, maxLen int) {
 	type cfg struct{ qps, burst int32 }
-	cfgs := []cfg{{1, 1}, {1, 3}, {2, 2}, {4, 8}, {2, 5}}
+	// incl. burst < qps and burst 0 (validation admits both), and a limit change in the middle (steps beyond asks+advs)
+	cfgs := []cfg{{1, 1}, {1, 3}, {2, 2}, {4, 8}, {2, 5}, {4, 2}, {8, 1}, {3, 0}}
 	asks := []int32{0, 1, 2, 5, 9, 100}
 	advs := []time.Duration{125 * time.Millisecond, 500 * time.Millisecond, time.Second, 10 * time.Second}
-	nsteps := len(asks) + len(advs)
+	resizes := []cfg{{8, 2}, {2, 6}}
+	nsteps := len(asks) + len(advs) + len(resizes)
 	t0 := time.Unix(1700000000, 0)
 	for _, cf := range cfgs {
 		idx := make([]int, 0, maxLen)
@@ -416,7 +418,38 @@ func tokenBucket(c *ev.Check, maxLen int) {
 				}
 				var grants []grant
 				var now time.Duration
+				cur := cf
+				judge := func() {
+					// every window [t_i, t_j] of the segment: sum of grants <= burst + qps*T
+					for i := range grants {
+						var sum int64
+						for j := i; j < len(grants); j++ {
+							sum += int64(grants[j].n)
+							T := (grants[j].at - grants[i].at).Seconds()
+							if float64(sum) > float64(cur.burst)+float64(cur.qps)*T+1e-9 {
+								c.Violation("tokenbucket/over-rate", fmt.Sprintf("qps=%d burst=%d: %d tokens granted within %.3fs (bound %.3f)", cur.qps, cur.burst, sum, T, float64(cur.burst)+float64(cur.qps)*T),
+									map[string]interface{}{"cfg": cf, "steps": append([]int{}, idx...)})
+							}
+						}
+					}
+				}
+				var total int64
 				for _, s := range idx {
+					if s >= len(asks)+len(advs) {
+						// the global limit changes: the grants so far are judged under the old limit, a new segment starts
+						to := resizes[s-len(asks)-len(advs)]
+						if to == cur {
+							continue
+						}
+						judge()
+						for _, g := range grants {
+							total += int64(g.n)
+						}
+						grants = nil
+						cur = to
+						fc.Resize(to.qps, to.burst)
+						continue
+					}
 					if s < len(asks) {
 						// the acquire loop of rateLimiter.DoAcquire: n, n/2, n/4, n/8
 						token := asks[s]
@@ -444,19 +477,7 @@ func tokenBucket(c *ev.Check, maxLen int) {
 					}
 				}
 				c.Add("tokenbucket_sequences", 1)
-				// every window [t_i, t_j]: sum of grants <= burst + qps*T
-				for i := range grants {
-					var sum int64
-					for j := i; j < len(grants); j++ {
-						sum += int64(grants[j].n)
-						T := (grants[j].at - grants[i].at).Seconds()
-						if float64(sum) > float64(cf.burst)+float64(cf.qps)*T+1e-9 {
-							c.Violation("tokenbucket/over-rate", fmt.Sprintf("qps=%d burst=%d: %d tokens granted within %.3fs (bound %.3f)", cf.qps, cf.burst, sum, T, float64(cf.burst)+float64(cf.qps)*T),
-								map[string]interface{}{"cfg": cf, "steps": append([]int{}, idx...)})
-						}
-					}
-				}
-				var total int64
+				judge()
 				for _, g := range grants {
 					total += int64(g.n)
 				}
